@@ -193,8 +193,9 @@ class Importer:
             >>> importer.import_string(content)
             >>> document = importer.import_string(content)
         """
-        lines = text.splitlines()
-        reader = csv.reader(lines, delimiter='\t', quoting=csv.QUOTE_NONE)
+        # same record separators as a file read by import_file (\n, \r\n, \r): str.splitlines() would also break a cell at
+        # form feeds, U+0085, U+2028 and other Unicode line boundaries
+        reader = csv.reader(io.StringIO(text, newline=''), delimiter='\t', quoting=csv.QUOTE_NONE)
         return self.run(reader)
 
     def get_error_messages(self) -> str:
